@@ -105,6 +105,13 @@ extension dot, name[dot+1, end) with one - which is empty, too, when the name en
 `.size()` of the result, `size() - ext().size() [- 1]`, `filename.back() == '.'` / `filename[pos] == '.'` are followed, so a
 return reached with "extension dot present, ext() empty" that does not cut at the dot is reported with that cause.
 
+Refactor batch 8: tokenize may return what another tokeniser returns (`pieces = split(str, std::string(1, delim))`, every
+piece appended by insert(tokens.end(), begin, end) or a push loop): the delegation is an R-C18-7 instance (insert at begin(),
+keepDelim = true are recognised wrong) and the splitter is checked in its place.  FileName: a file-local helper that is handed
+the name and returns a string cut out of it (withoutExt) is summarised per return into (string, dot state, separator state)
+and spliced into the caller's typestate; operator+ may assemble the member directly if the part behind the separator is the
+string of a FileName that every path has tested to be non-empty (.empty() / size() / == "") and nothing follows it.
+
 Helpers: file-local / private helpers are followed with parameters mapped (FileName position helpers are
 summarised into the typestate, a prefix-length index loop stands for std::mismatch, a lookup helper that scans
 from the back and returns the first hit stands for last-duplicate-wins, name=value cutting may live in a helper).
@@ -1117,6 +1124,153 @@ def token_worker(tu, f, depth=0):
     return f
 
 
+def split_delegation(tu, f):
+    """tokenize(str, delim, tokens) written as  pieces = splitter(str, std::string(1, delim));  tokens.insert(tokens.end(),
+    pieces.begin(), pieces.end())  (iterators possibly wrapped in std::make_move_iterator), or a range-for that pushes every
+    piece: {'hf': the splitter, 'call': node, 'bad': [(key, text)], 'und': [text]} or None if f is not of this shape"""
+    body = tu.body(f)
+    ps = f.get('params', [])
+    strs = [p for p in ps if 'basic_string' in p['ct'] and 'vector' not in p['ct']]
+    vecs = [p for p in ps if 'vector' in p['ct']]
+    chars = [p for p in ps if plain_ct(p['ct']) == 'char']
+    if body is None or len(strs) != 1 or len(vecs) != 1:
+        return None
+
+    def ref(e):
+        e = tu.strip(e, casts=True) if e is not None else None
+        for _ in range(6):
+            if e is not None and e.get('kind') in ('MaterializeTemporaryExpr', 'CXXBindTemporaryExpr', 'ExprWithCleanups'):
+                e = tu.strip(tu.kids(e)[0], casts=True)
+            elif e is not None and e.get('kind') == 'CXXConstructExpr' and len(tu.kids(e)) == 1:
+                e = tu.strip(tu.kids(e)[0], casts=True)       # copy / converting construction of the same value
+            else:
+                break
+        return e
+
+    def decl_of(e):
+        e = ref(e)
+        return e.get('referencedDecl', {}).get('id') if e is not None and e.get('kind') == 'DeclRefExpr' else None
+
+    calls = []
+    for y in tu.walk(body):
+        if y.get('kind') != 'CallExpr':
+            continue
+        hf = tu.callee_fn(y)
+        if hf is None or hf['dep'] or tu.cfg(hf) is None or hf.get('rec') or hf['id'] == f['id']:
+            continue
+        if 'vector<std::basic_string<char>' not in (tu.sd(y).get('ct') or ''):
+            continue
+        if any(decl_of(a) == strs[0]['id'] for a in tu.kids(y)[1:]):
+            calls.append((y, hf))
+    if len(calls) != 1:
+        return None
+    call, hf = calls[0]
+    out = {'hf': hf, 'call': call, 'bad': [], 'und': [], 'push_ids': set()}
+    args = tu.kids(call)[1:]
+    hps = hf.get('params', [])
+    if not args or decl_of(args[0]) != strs[0]['id'] or len(hps) < 2 or len(args) < 2:
+        out['und'].append('the input string is not the first argument of `%s`' % tu.show(call))
+        return out
+    # ---- the delimiter handed on
+    if 'basic_string' in hps[1]['ct']:
+        a = ref(args[1])
+        okd = False
+        if a is not None and a.get('kind') in ('CXXConstructExpr', 'CXXTemporaryObjectExpr') and chars:
+            real = [z for z in tu.kids(a) if z.get('kind') != 'CXXDefaultArgExpr']
+            if len(real) == 2:
+                cnt = tu.sd(tu.strip(real[0], casts=True)).get('cv') or (tu.strip(real[0], casts=True) or {}).get('value')
+                if str(cnt) == '1' and decl_of(real[1]) == chars[0]['id']:
+                    okd = True
+        if not okd:
+            out['und'].append('the delimiter set `%s` is not the one-character string made of the delimiter parameter' % tu.show(args[1]))
+    else:
+        out['und'].append('`%s` splits at a single character: whether it drops empty pieces like tokenize must is not compared' % fn_name(hf))
+    for a in args[2:]:
+        a0 = tu.strip(a, casts=True)
+        if a0 is None or a0.get('kind') == 'CXXDefaultArgExpr':
+            continue
+        if a0.get('kind') == 'CXXBoolLiteralExpr' and plain_ct(hps[2]['ct'] if len(hps) > 2 else '') == 'bool':
+            if a0.get('value') is True:
+                out['bad'].append(('keeps-delimiters', '`%s` asks the splitter to keep the delimiters: every token but the first starts with '
+                                   'the delimiter character' % tu.show(call)))
+            continue
+        out['und'].append('extra argument `%s` of the splitter' % tu.show(a))
+    # ---- where the result goes
+    vd = None
+    p_ = tu.par(call)
+    for _ in range(8):
+        if p_ is None:
+            break
+        if p_.get('kind') == 'VarDecl':
+            vd = p_
+            break
+        if p_.get('kind') not in ('MaterializeTemporaryExpr', 'CXXBindTemporaryExpr', 'ExprWithCleanups', 'CXXConstructExpr',
+                                  'ImplicitCastExpr'):
+            break
+        p_ = tu.par(p_)
+    if vd is None:
+        out['und'].append('the result of `%s` is not stored in a local vector' % tu.show(call))
+        return out
+    uses = [y for y in tu.walk(body) if y.get('kind') == 'DeclRefExpr' and y.get('referencedDecl', {}).get('id') == vd['id']]
+    tuses = [y for y in tu.walk(body) if y.get('kind') == 'DeclRefExpr' and y.get('referencedDecl', {}).get('id') == vecs[0]['id']]
+    inserts = [y for y in tu.walk(body) if y.get('kind') == 'CXXMemberCallExpr' and last_name(tu.sd(y).get('q')) == 'insert' and
+               decl_of(tu.call_parts(y)[1]) == vecs[0]['id']]
+    rfors = [y for y in tu.walk(body) if y.get('kind') == 'CXXForRangeStmt']
+
+    def end_of(e, which, did):
+        """e is  V.begin() / V.end()  (possibly inside std::make_move_iterator)"""
+        e = ref(e)
+        if e is not None and e.get('kind') == 'CallExpr' and tu.sd(e).get('q') == 'std::make_move_iterator' and len(tu.kids(e)) == 2:
+            e = ref(tu.kids(e)[1])
+        if e is not None and e.get('kind') == 'CXXMemberCallExpr' and last_name(tu.sd(e).get('q')) in which and \
+                not tu.call_parts(e)[2] and decl_of(tu.call_parts(e)[1]) == did:
+            return True
+        return False
+    if len(inserts) == 1 and not rfors:
+        s_, obj, ia = tu.call_parts(inserts[0])
+        if len(ia) != 3:
+            out['und'].append('`%s` is not insert(position, first, last)' % tu.show(inserts[0]))
+        else:
+            if end_of(ia[0], ('begin', 'cbegin'), vecs[0]['id']):
+                out['bad'].append(('prepends', '`%s` puts the new tokens in front of what the caller already has in `%s`; tokenize appends'
+                                   % (tu.show(inserts[0]), vecs[0]['name'])))
+            elif not end_of(ia[0], ('end', 'cend'), vecs[0]['id']):
+                out['und'].append('insert position `%s` is not %s.end()' % (tu.show(ia[0]), vecs[0]['name']))
+            if not end_of(ia[1], ('begin', 'cbegin'), vd['id']) or not end_of(ia[2], ('end', 'cend'), vd['id']):
+                out['und'].append('`%s` does not insert the whole range [%s.begin(), %s.end())' % (tu.show(inserts[0]), vd.get('name'), vd.get('name')))
+        if len(uses) != 2 or len(tuses) != 2:
+            out['und'].append('`%s` / `%s` are used by more than the one insert' % (vd.get('name'), vecs[0]['name']))
+    elif len(rfors) == 1 and not inserts:
+        rf = rfors[0]
+        rng = [v2 for v2 in tu.walk(rf) if v2.get('kind') == 'VarDecl' and (v2.get('name') or '').startswith('__range')]
+        pushes = [y for y in tu.walk(rf) if y.get('kind') == 'CXXMemberCallExpr' and last_name(tu.sd(y).get('q')) in ('push_back', 'emplace_back')
+                  and decl_of(tu.call_parts(y)[1]) == vecs[0]['id']]
+        out['push_ids'] = {y['id'] for y in pushes}
+        elem = None
+        for st in tu.kids(rf):
+            if st.get('kind') == 'DeclStmt':
+                for v2 in tu.kids(st):
+                    if v2.get('kind') == 'VarDecl' and not (v2.get('name') or '').startswith('__'):
+                        elem = v2
+        okr = bool(rng) and tu.kids(rng[0]) and decl_of(tu.kids(rng[0])[0]) == vd['id'] and len(pushes) == 1 and elem is not None
+        if okr:
+            pa = tu.call_parts(pushes[0])[2]
+            a = ref(pa[0]) if len(pa) == 1 else None
+            if a is not None and a.get('kind') == 'CallExpr' and tu.sd(a).get('q') == 'std::move' and len(tu.kids(a)) == 2:
+                a = ref(tu.kids(a)[1])
+            body_ = tu.kids(rf)[-1]
+            conds = [y for y in tu.walk(body_) if y.get('kind') in ('IfStmt', 'ConditionalOperator', 'ContinueStmt', 'BreakStmt',
+                                                                   'ReturnStmt', 'WhileStmt', 'ForStmt', 'SwitchStmt')]
+            okr = a is not None and a.get('kind') == 'DeclRefExpr' and a.get('referencedDecl', {}).get('id') == elem['id'] and not conds
+        if not okr:
+            out['und'].append('the loop over `%s` does not push every piece, unchanged, onto `%s`' % (vd.get('name'), vecs[0]['name']))
+        if len(uses) != 1 or len(tuses) != 1:
+            out['und'].append('`%s` / `%s` are used by more than the one loop' % (vd.get('name'), vecs[0]['name']))
+    else:
+        out['und'].append('cannot see how the pieces returned by `%s` reach `%s`' % (fn_name(hf), vecs[0]['name']))
+    return out
+
+
 def check_tokens(ctx, tu, qnames):
     R2, R7 = 'R-C18-2', 'R-C18-7'
     ctx.describe(R2, 'token filter: every branch condition on the length n of a token that dominates its push_back is '
@@ -1126,8 +1280,29 @@ def check_tokens(ctx, tu, qnames):
     n2 = n7 = 0
     nf = 0
     for q in qnames:
-        fs = [f for f in tu.fns(q=q) if not f['dep'] and tu.cfg(f) is not None]
-        fs = [token_worker(tu, f) for f in fs]
+        fs0 = [f for f in tu.fns(q=q) if not f['dep'] and tu.cfg(f) is not None]
+        fs = []
+        for f in fs0:
+            w = token_worker(tu, f)
+            if w is f:
+                own = {c_['id'] for c_, v_, a_, p_ in TokenFn(tu, f).pushes()}
+                dg = split_delegation(tu, f)
+                if dg is not None and own <= dg['push_ids']:
+                    # the tokens are what another tokeniser returns, appended wholesale: that one is checked in f's place
+                    n7 += 1
+                    dinst = '%s %s: tokens are the pieces returned by `%s`' % (fn_name(f), f['fty'], tu.show(dg['call']))
+                    dloc = tu.loc(dg['call'])
+                    if dg['bad']:
+                        for k_, m_ in dg['bad']:
+                            ctx.violation(R7, dinst, m_, dloc, key='%s|%s|%s|%s' % (R7, tu.fn_file(f), fn_name(f), k_))
+                    elif dg['und']:
+                        for u_ in dg['und']:
+                            ctx.undecided(R7, dinst, u_, dloc)
+                    else:
+                        ctx.ok(R7, dinst, 'one-character delimiter set made of the delimiter, every piece appended in order; `%s` is '
+                               'checked below' % fn_name(dg['hf']), dloc)
+                    w = token_worker(tu, dg['hf'])
+            fs.append(w)
         for f in fs:
             before = n2
             tf = TokenFn(tu, f)
@@ -4700,6 +4875,10 @@ class FileNameTS:
             return 'whole'
         if k == 'UnaryOperator' and e.get('opcode') == '*' and tu.is_this(tu.kids(e)[0]):
             return 'whole'
+        if k == 'CallExpr' and ('scall', e.get('id')) in d:
+            return d[('scall', e['id'])]
+        if k == 'DeclRefExpr' and x.objkey(e) == self.FKEY:
+            return 'whole'
         if k == 'DeclRefExpr':
             dd, v = x.var_of(e)
             if dd is not None and v['param']:
@@ -4827,6 +5006,26 @@ class FileNameTS:
                     d2[('sib', n['id'], 'dot')] = 'DG'
                 out.append(self.fz(d2))
             return out
+        if k == 'CallExpr' and ('scall', n['id']) not in d:
+            ss = self.strhelper(n)
+            if ss is not None:
+                out = []
+                for sv, dstate, sstate in ss:
+                    if (sstate == 'nosep' and d.get('$sep')) or (sstate == 'sep' and d.get('$nosep')):
+                        continue
+                    d2 = dict(d)
+                    d2[('scall', n['id'])] = sv
+                    mark = {'valid': 'DG', 'valid-unguarded': 'D', 'open': 'D?'}.get(dstate)
+                    if mark is not None:
+                        d2[('sib', n['id'], 'dot')] = mark
+                    if sstate == 'nosep':
+                        d2['$nosep'] = True
+                    elif sstate == 'sep':
+                        d2['$sep'] = True
+                    z = self.fz(d2)
+                    if z not in out:
+                        out.append(z)
+                return out
         if k in ('CallExpr', 'CXXMemberCallExpr'):
             summ = self.helper(n)
             if summ is not None:
@@ -4906,6 +5105,51 @@ class FileNameTS:
         if hf not in self.followed:
             self.followed.append(hf)
         return sub.ret_vals or None
+
+    def strhelper(self, call):
+        """summary [(returned abstract string, dot state, separator state)] of a file-local helper that is handed the name by
+        const reference and returns a string cut out of it (withoutExt(filename)); None if the call is not such a helper"""
+        tu = self.tu
+        if self.depth > 3:
+            return None
+        hf = tu.callee_fn(call)
+        if hf is None or hf['dep'] or tu.cfg(hf) is None or hf['id'] == self.f['id'] or hf.get('rec'):
+            return None
+        if 'basic_string' not in (tu.sd(call).get('ct') or '') or tu.fn_file(hf) != tu.fn_file(self.f):
+            return None
+        args = tu.kids(call)[1:]
+        hits = [i for i, a in enumerate(args) if self.x.objkey(a) == self.FKEY]
+        ps = hf.get('params', [])
+        if len(hits) != 1 or hits[0] >= len(ps) or 'basic_string' not in ps[hits[0]]['ct'] or \
+                not ps[hits[0]]['ct'].startswith('const ') or len(args) != 1:
+            return None
+        p = ps[hits[0]]
+        fkey = ('var', p['id'], p['name'])
+        memo = FileNameTS.SUMMARIES.setdefault(id(tu), {})
+        key = (hf['id'], 'str', self.is_base)
+        if key not in memo:
+            sub = FileNameTS(tu, hf, self.field, fkey=fkey, depth=self.depth + 1)
+            sub.is_base = self.is_base
+            sub.run()
+            memo[key] = sub
+        sub = memo[key]
+        for u in sub.uses:
+            if u not in self.uses:
+                self.uses.append(u)
+        self.unknown_cmp += [c for c in sub.unknown_cmp if c not in self.unknown_cmp]
+        for bd in sub.boundaries:
+            if not any(b[0] == bd[0] for b in self.boundaries):
+                self.boundaries.append(bd)
+        self.followed = getattr(self, 'followed', [])
+        if hf not in self.followed:
+            self.followed.append(hf)
+        tvars = set(sub.x.vars)
+        out = []
+        for node, sv, d in sub.returns:
+            dstate, sstate = state_class(d, tvars)
+            if (sv, dstate, sstate) not in out:
+                out.append((sv, dstate, sstate))
+        return out or None
 
     def assign(self, d, v, rhs):
         if rhs is None:
@@ -5169,7 +5413,9 @@ def search_kinds(tu, ts, f, kinds, depth, seen=None):
         elif k in ('CallExpr', 'CXXMemberCallExpr'):
             hf = tu.callee_fn(n)
             if hf is not None and not hf['dep'] and (not hf.get('rec') or hf.get('rec') == FNAME) and \
-                    (is_int_ct(tu.sd(n).get('ct')) or (hf.get('rec') == FNAME and last_name(hf['q']) in CUT_SPEC)) and \
+                    (is_int_ct(tu.sd(n).get('ct')) or (hf.get('rec') == FNAME and last_name(hf['q']) in CUT_SPEC) or
+                     (not hf.get('rec') and 'basic_string' in (tu.sd(n).get('ct') or '') and
+                      any('basic_string' in p_['ct'] and p_['ct'].startswith('const ') for p_ in hf.get('params', [])))) and \
                     tu.fn_file(hf) == tu.fn_file(f):
                 has_sep = search_kinds(tu, ts, hf, kinds, depth + 1, seen) or has_sep
     return has_sep
@@ -5261,25 +5507,7 @@ def check_filename(ctx, tu):
         tvars = set(ts.x.vars)
         for node, sv, d in ts.returns:
             n8 += 1
-            dots = [{'DB': 'DG', 'DB?': 'DG?'}.get(w, w) for k2, w in d.items()
-                    if w in ('D', 'D?', 'DG', 'DG?', 'DX', 'DU', 'DU?', 'DB', 'DB?')
-                    and not (isinstance(k2, tuple) and k2 and k2[0] == 'call' and
-                             any(w2 in ('N', w, w.rstrip('?')) for k3, w2 in d.items() if not isinstance(k3, tuple) and k3 in tvars))]
-            nosep = bool(d.get('$nosep'))
-            seps = [w for w in d.values() if w in ('S?', 'S', 'L')]
-            dstate = None
-            if any(w in ('D?', 'DU', 'DU?', 'DG?') for w in dots):
-                dstate = 'open'
-            elif 'DG' in dots:
-                dstate = 'valid'
-            elif 'D' in dots:
-                dstate = 'valid-unguarded'
-            else:
-                dstate = 'none'     # no dot found, or only one in a directory
-            if 'S?' in seps and not nosep:
-                sstate = 'open'
-            else:
-                sstate = 'nosep' if nosep else 'sep'
+            dstate, sstate = state_class(d, tvars)
             unguarded = dstate == 'valid-unguarded'
             if unguarded:
                 # not compared with the separator (R-C18-1 reports that): a cut made at the dot must still be the right cut
@@ -5378,6 +5606,29 @@ def check_filename(ctx, tu):
         else:
             ctx.undecided(R8, rinst, 'cannot classify %s() of the temporary returned by %s()' % (outer, inner), tu.loc(node))
     return n1, n8
+
+
+def state_class(d, tvars):
+    """(dot state: open | valid | valid-unguarded | none,  separator state: open | nosep | sep) of a typestate at a return"""
+    dots = [{'DB': 'DG', 'DB?': 'DG?'}.get(w, w) for k2, w in d.items()
+            if w in ('D', 'D?', 'DG', 'DG?', 'DX', 'DU', 'DU?', 'DB', 'DB?')
+            and not (isinstance(k2, tuple) and k2 and k2[0] == 'call' and
+                     any(w2 in ('N', w, w.rstrip('?')) for k3, w2 in d.items() if not isinstance(k3, tuple) and k3 in tvars))]
+    nosep = bool(d.get('$nosep'))
+    seps = [w for w in d.values() if w in ('S?', 'S', 'L')]
+    if any(w in ('D?', 'DU', 'DU?', 'DG?') for w in dots):
+        dstate = 'open'
+    elif 'DG' in dots:
+        dstate = 'valid'
+    elif 'D' in dots:
+        dstate = 'valid-unguarded'
+    else:
+        dstate = 'none'     # no dot found, or only one in a directory
+    if 'S?' in seps and not nosep:
+        sstate = 'open'
+    else:
+        sstate = 'nosep' if nosep else 'sep'
+    return dstate, sstate
 
 
 def mentions_dot(s):
@@ -7721,6 +7972,64 @@ def field_writes(tu, f, fq):
     return x, out
 
 
+def known_nonempty_tail(tu, x, sep_write, last):
+    """the write `last` (target += <string member of a FileName>) follows the separator write in the same basic block, and every
+    path to it has taken a branch edge that says the appended string is not empty"""
+    ps, pl = x.pos_of(sep_write[1]), x.pos_of(last[1])
+    if ps is None or pl is None or ps[0] != pl[0] or not ps[1] < pl[1] or last[0] != 'append':
+        return False
+    def okey(e):
+        e = tu.strip(e, casts=True) if e is not None else None
+        if e is None or e.get('kind') != 'MemberExpr' or tu.sd(e).get('k') != 'member':
+            return None
+        ks = tu.kids(e)
+        base = tu.strip(ks[0], casts=True) if ks else None
+        if base is None or tu.is_this(base):
+            return ('field', 'this', tu.sd(e).get('q'))
+        if base.get('kind') == 'DeclRefExpr':
+            return ('field', base.get('referencedDecl', {}).get('id'), tu.sd(e).get('q'))
+        return None
+    skey = okey(last[3])
+    if skey is None or skey[2] != FNAME + '::filename':
+        return False
+    bd = x.vars.get(skey[1]) if skey[1] != 'this' else None
+    if bd is not None and (bd['defs'] or (bd['escaped'] and not top_const(bd['ct']) and 'const ' not in (bd['ct'] or ''))):
+        return False
+    for cn, truth, blk in x.guards(pl):
+        c = tu.strip(cn, casts=True)
+        neg = False
+        while c is not None and c.get('kind') == 'UnaryOperator' and c.get('opcode') == '!':
+            neg = not neg
+            c = tu.strip(tu.kids(c)[0], casts=True)
+        if c is None:
+            continue
+        val = truth != neg
+        k = c.get('kind')
+        q = tu.sd(c).get('q') or ''
+        if k == 'CXXMemberCallExpr' and q.startswith('std::basic_string<') and last_name(q) == 'empty':
+            if okey(tu.call_parts(c)[1]) == skey and val is False:
+                return True
+        elif k == 'CXXOperatorCallExpr' and last_name(q) in ('operator==', 'operator!=') and len(tu.kids(c)) == 3:
+            a, b = tu.kids(c)[1:3]
+            for u, v in ((a, b), (b, a)):
+                lit = tu.strip(v, casts=True)
+                if okey(u) == skey and lit is not None and lit.get('kind') == 'StringLiteral' and lit.get('value') == '""':
+                    if val == (last_name(q) == 'operator!='):
+                        return True
+        elif k == 'BinaryOperator' and c.get('opcode') in ('>', '!=', '==', '>=', '<', '<='):
+            # other.filename.size() > 0  /  != 0  /  >= 1
+            l, r = tu.kids(c)[:2]
+            op = c['opcode'] if val else {'>': '<=', '>=': '<', '<': '>=', '<=': '>', '==': '!=', '!=': '=='}[c['opcode']]
+            for u, v, o in ((l, r, op), (r, l, {'>': '<', '<': '>', '>=': '<=', '<=': '>=', '==': '==', '!=': '!='}[op])):
+                ue = tu.strip(u, casts=True)
+                cv = x.poly_at(v, None).as_int()
+                if ue is not None and ue.get('kind') == 'CXXMemberCallExpr' and last_name(tu.sd(ue).get('q')) in ('size', 'length') and \
+                        okey(tu.call_parts(ue)[1]) == skey and cv is not None:
+                    if (o == '>' and cv >= 0) or (o == '>=' and cv >= 1) or (o == '!=' and cv == 0):
+                        return True
+    return False
+
+
 def check_normal_form(ctx, tu):
     R = 'R-C18-11'
     ctx.describe(R, 'FileName normal form: every function that writes the private string either is a constructor / helper that strips all '
@@ -7825,6 +8134,11 @@ def check_normal_form(ctx, tu):
                               key='%s|%s|%s|strip-before-convert' % (R, tu.fn_file(lx.f), fn_name(lx.f)))
             elif strip[0]:
                 ctx.ok(R, tinst, 'trailing separators are stripped%s: %s' % ((' by ' + fn_name(via)) if via else '', strip[1]), loc)
+            elif sep_write is not None and after_sep and tw[-1] is after_sep[-1] and \
+                    known_nonempty_tail(tu, x, sep_write, after_sep[-1]):
+                ctx.ok(R, tinst, 'joins the strings of two FileNames with one separator; the part behind the separator (`%s`) is the '
+                       'string of a FileName that is known not to be empty there, so the result does not end in a separator'
+                       % tu.show(after_sep[-1][3]), loc)
             elif sep_write is not None:
                 ctx.violation(R, tinst, '`%s` puts a path separator at the end of `%s` and %s, without going through the normalising '
                               'constructor: if the right-hand part is empty (FileName("a") + "") the result ends in a separator, so '
